@@ -27,6 +27,8 @@ CHECKS = {
          "perfect storage stub; literal-pattern stub; hash abstraction justified by a lemma on the real body each run; counterexamples that need a real collision are not replayable (noted, outside the claim); PSL model; engine; z3"),
  "C19": ("fault schedule as symbolic Booleans: every storage retrieval during NetworkEngine.MatchAll may fail independently: no crash, every returned rule matches, in-memory rules still served; RuleStorage.RetrieveRule over a list that may fail at every call (sequences of 1..3/5 retrievals): failures never cached, materialised rules still served, unknown lists yield errors",
          "stub retrieval returns nil on a fault (the real RetrieveRule/RetrieveNetworkRule path is checked in the storage harness); closed-file behaviour of the OS outside; engine; z3"),
+ "C02": ("NewDNSEngine+MatchRequest with real lookup table, network engine tables, host-level filter and pooled request on 0..2 symbolic hosts-file rules and 0..2 symbolic network rules against the reference resolution (documented host-level predicate, Match on a fresh request, GetDNSBasicRule class, family split, matched flag); IsHostLevelNetworkRule == documented predicate for all option words",
+         "scanner/storage stubbed as perfect; literal-pattern stub; hash uninterpreted (collision-dependent counterexamples noted, not replayable); pooled request arbitrary; PSL model; engine; z3"),
  "C16": ("unbounded in the fields the function reads (64-bit option word, 32-bit mask, exception flag fully symbolic under the parser's representation invariant); counterexamples replayed from rule text through the real parser",
          "InvRule on option words (validated natively on the repo's own rule corpus); go/ssa lowering; engine; z3"),
 }
